@@ -1,6 +1,7 @@
 package main
 
 import (
+	"strings"
 	"fmt"
 
 	"github.com/resonatehq/resonate/pkg/promise"
@@ -14,7 +15,7 @@ import (
 func init() {
 	register(&Family{
 		Name:  "notify.window",
-		Props: map[string][2]int{"C19": {800, 30000}, "C20": {800, 30000}, "C08": {200, 8000}},
+		Props: map[string][2]int{"C19": {800, 30000}, "C20": {800, 30000}, "C08": {200, 8000}, "C06": {150, 4000}},
 		Run: func(c *Ctx) {
 			r := c.R
 			cfg := randCfg(r, []string{"EnqueueTasks"})
@@ -27,9 +28,17 @@ func init() {
 			cfg.Sys.TaskBatchSize = pick(r, 3, 10, 100)
 			pol := randPolicy(r, false)
 			pol.PSendErr, pol.PSendFalse, pol.PSendFull = 0, 0, 0
+			if r.Intn(3) == 0 {
+				pol.PSendSlow = 0.4
+			}
 			s := c.NewSim(cfg, pol)
 			s.now = T0
 			ids := []string{"a", "b", "c", "d"}[:2+r.Intn(3)]
+			if r.Intn(3) == 0 {
+				// ids that look like paths with empty, dot and trailing segments: the links of a message name the task by
+				// exactly its id, whatever a path cleaner would make of it
+				ids = []string{"job", "job/", "x/../job", "a//b", "./c/."}[:2+r.Intn(4)]
+			}
 			for _, id := range ids {
 				s.Submit("setup", reqCreate(id, nil, false, T0+100000, nil, "param-"+id))
 			}
@@ -44,7 +53,7 @@ func init() {
 					to = T0 + 100000
 				}
 				s.Submit("setup", reqSubscription("s", id, to, pick(r, `"poll://default/w"`, `"http://localhost:9/n"`)))
-				if r.Intn(3) == 0 {
+				if r.Intn(3) == 0 || strings.Contains(id, "/") {
 					s.Submit("setup", reqCallback(id, "root", base+int64(2+r.Intn(14)), `"poll://default/w2"`))
 				}
 			}
